@@ -257,7 +257,7 @@ def finding_witnesses(ctx, I):
     err = I.send_obj(b, w2())
     ctx.case(dict(w="lone-surrogate"), nontrivial=True)
     err2 = I.send_obj(b, ["after"])
-    r = I.receive(bytes(b.transport.out), [])
+    r = I.receive(bytes(b.transport.out), [], tolerate_abort=True)
     if not (err and "Violation" in err) or err2 or r[0] != "ok" or r[1] != [["after"]]:
         ctx.fail("oracle/send-failed/lone-surrogate-text", "text with a lone surrogate is not refused cleanly: first send: %s, next send: %s, "
                  "receiver: %r" % (err, err2, r), replay=dict(python='["\\ud800"] then ["after"]', first=err, second=err2, received=repr(r)[:300]))
@@ -449,7 +449,11 @@ def first_int_after_call(data, voc):
 
 
 # ---------------------------------------------------------------------------------------------------------
-CHK = """
+ZB = """
+Definition zb (neg : bool) (bs : list Z) : Z := let v := fold_left (fun a b => a * 256 + b) bs 0 in if neg then - v else v.
+"""
+
+CHK = ZB + """
 Definition fuel_of (ts : list obj) : nat := S (size_list ts).
 Definition chk (c : bool * Z * list obj * vtable * list Z * bool) : Z :=
   let '(sc, n, ts, tbl, bs, dec) := c in
@@ -471,7 +475,7 @@ Definition chk (c : bool * Z * list obj * vtable * list Z * bool) : Z :=
   (if b_wf then 1 else 0) + (if b_tok then 2 else 0) + (if b_send then 4 else 0) + (if b_recv then 8 else 0).
 """
 
-VCHK = """
+VCHK = ZB + """
 Definition vchk (c : vtable * obj * vtable * obj * list Z) : Z :=
   let '(tbl0, t1, tbl1, t2, bs) := c in
   let n1 := opens t1 in
